@@ -18,6 +18,8 @@ QUICK = {
     'case': ['plain', 'alias', 'required'],
     'io': ['plain', 'mode', 'defaults', 'required', 'alias'],
     'mode': ['mode', 'required'],
+    'modereq': ['mode'],
+    'aliaserr': ['plain', 'alias'],
     'deps': ['plain', 'required', 'alias'],
     'onerr': ['plain', 'policy', 'required', 'defaults'],
     'defer': ['plain', 'defaults', 'required'],
@@ -28,7 +30,7 @@ QUICK = {
 
 
 def applicable(spec, group):
-    if group == 'mode' and spec not in ('mode', 'io', 'mix'):
+    if group == 'mode' and spec not in ('mode', 'io', 'mix', 'modereq'):
         return False
     if group == 'policy' and spec not in ('onerr', 'basic', 'mix'):
         return False
